@@ -18,8 +18,9 @@
 
   `Mode` switches between the code before and after the repairs
     fixes/C11-literal-cache-key.patch   (litKeyTyped)
-    fixes/C15-literal-dedup.patch       (litDedupTyped)
     fixes/C15-union-order-total.patch   (unionTotal)
+  (fixes/C15-literal-dedup.patch concerns unions *of literals*, which are outside this grammar; a plain
+  `Literal[...]` is deduplicated by `typing` itself, by (type, value).)
   The theorems are about `Mode.fixed`; the other modes exist so that the defects
   of the unrepaired code are exhibited by `decide` on concrete histories.
 -/
@@ -69,11 +70,6 @@ def LitVal.lt (a b : LitVal) : Bool := keyLt a.key b.key
 def canonLits (args : List LitVal) : List LitVal := canonBy LitVal.lt args
 
 def canonNats (ms : List Nat) : List Nat := canonBy (fun a b => decide (a < b)) ms
-
-/-- `_dedup` of the unrepaired `_create_norm_literal`: by value, first occurrence wins. -/
-def dedupByValue : List LitVal → List LitVal
-  | [] => []
-  | x :: xs => x :: (dedupByValue xs).filter (fun y => !(LitVal.pyEq x y))
 
 /-! ### Type hints -/
 
@@ -138,17 +134,17 @@ structure Univ where
 
 structure Mode where
   litKeyTyped : Bool     -- LiteralProvider passes (type, value) pairs to cached_call
-  litDedupTyped : Bool   -- _create_norm_literal deduplicates by (type, value)
   unionTotal : Bool      -- _UnionNormType orders by (str, id), not by str alone
   deriving DecidableEq, Repr, Inhabited
 
-def Mode.fixed : Mode := ⟨true, true, true⟩
-def Mode.legacy : Mode := ⟨false, false, false⟩
+def Mode.fixed : Mode := ⟨true, true⟩
+def Mode.legacy : Mode := ⟨false, false⟩
 
 /-! ### Normalisation (`normalize_type`) -/
 
-def normLits (M : Mode) (args : List LitVal) : List LitVal :=
-  if M.litDedupTyped then canonLits args else canonLits (dedupByValue args)
+/-- `_LiteralNormType`: the arguments (already unique by (type, value): `typing` deduplicates) in a
+    canonical order (the code sorts by `repr`; any fixed total order gives the same behaviour) -/
+def normLits (args : List LitVal) : List LitVal := canonLits args
 
 /-- stable insertion by `str()` only (the unrepaired `_order_args`) -/
 def insertStable (U : Univ) (x : Nat) : List Nat → List Nat
@@ -171,7 +167,7 @@ def originOf (flavor : Nat) : Nat := if flavor < 2 then 0 else 1
     attribute is not part of it).  Flavours collapse to origins. -/
 def Hint.canon (M : Mode) (U : Univ) : Hint → Hint
   | .cls u => .cls u
-  | .lit args => .lit (normLits M args)
+  | .lit args => .lit (normLits args)
   | .seq fl e => .seq (originOf fl) (e.canon M U)
   | .annotated b m => .annotated (b.canon M U) (m.map LitVal.valRep)
   | .union ms => .union (normUnion M U ms)
@@ -415,7 +411,7 @@ def route (M : Mode) (U : Univ) (cap : Nat) (cfg : Cfg) (dir : Dir) (rec : Step)
       let b := rec (Loc.th (Hint.cls U.bytesUid) :: σ) (.cls U.bytesUid) s   -- _fetch_bytes_loader
       match b.1 with
       | none => (none, b.2)
-      | some bl => cached M (.literalL (normLits M args) cfg.strict bl) b.2
+      | some bl => cached M (.literalL (normLits args) cfg.strict bl) b.2
   | .seq fl e =>
     let r := rec (Loc.gp e.eqRep 0 :: σ) e s
     match r.1 with
@@ -481,6 +477,8 @@ def convPlan (U : Univ) : Nat → Hint → Hint → Option Clo
   | fuel + 1, s, d =>
     if s == d then some .convId else
     match s, d with
+    | .annotated b _, _ => convPlan U fuel b d          -- TypeHintTagsUnwrappingProvider
+    | _, .annotated b _ => convPlan U fuel s b
     | .cls a, .cls b =>
       match U.kind a, U.kind b with
       | .model fa, .model fb =>
